@@ -76,6 +76,9 @@ class Engine:
         # render_opaque: rendered ints become 1-char canonical tokens with NO digit-count fork; only
         # sound where the harness knows the rendered text's length/content is never inspected
         self.render_opaque = False
+        # token alphabet: 'pua' (plane-15 private use; default) or 'ctl' (ASCII control chars that survive
+        # .encode('ascii'/'latin-1') and the header-value CR/LF/NUL check; at most 22 distinct terms per path)
+        self.token_alphabet = "pua"
         self._fresh = 0
         # per-path token registry for f-string rendering
         self.rendered: List[Tuple[z3.ExprRef, str]] = []
@@ -274,7 +277,7 @@ class Engine:
             if z3.eq(t, term) or self.branch(t == term):
                 return tok
         if self.render_opaque:
-            tok = chr(0xF0000 + len(self.rendered))
+            tok = self._token_char()
             self.rendered.append((term, tok))
             self.tokens[tok] = term
             return tok
@@ -285,10 +288,32 @@ class Engine:
             d += 1
         if d == self.render_digits and not self.branch(term < 10 ** d):
             raise self._raise(Unsupported(f"rendered integer beyond {self.render_digits} digits"))
-        tok = chr(0xF0000 + len(self.rendered)) * d
+        tok = self._token_char() * d
         self.rendered.append((term, tok))
         self.tokens[tok] = term
         return tok
+
+    CTL = [chr(c) for c in list(range(1, 9)) + list(range(14, 28))]
+
+    def _token_char(self) -> str:
+        k = len(self.rendered)
+        if self.token_alphabet == "ctl":
+            if k >= len(self.CTL):
+                raise self._raise(Unsupported("more than 22 distinct rendered integers on one path"))
+            return self.CTL[k]
+        return chr(0xF0000 + k)
+
+    def is_token_char(self, c: str) -> bool:
+        o = ord(c)
+        return 0xF0000 <= o < 0x100000 or (self.token_alphabet == "ctl" and c in self.CTL)
+
+    def term_of_text(self, s: str):
+        """z3 Int term denoted by a rendered decimal text: a registered token run or plain digits."""
+        if s in self.tokens:
+            return self.tokens[s]
+        if s.isascii() and s.isdigit():
+            return z3.IntVal(_int(s))
+        return None
 
     def render_char(self, term) -> str:
         """One-character placeholder (plane-16 private use) for a symbolic code point that
@@ -524,7 +549,7 @@ def conc(x, m: z3.ModelRef):
         return "".join(chr(conc(i, m)) for i in x.items)
     if _isinstance(x, _str):
         e = Engine.cur
-        if e is not None and (e.tokens or e.chars) and any(ord(c) >= 0xF0000 for c in x):
+        if e is not None and (e.tokens or e.chars) and any(ord(c) >= 0xF0000 or e.is_token_char(c) for c in x):
             return detoken(x, m, e)
         return x
     if _isinstance(x, tuple):
@@ -544,16 +569,18 @@ def detoken(s: str, m: z3.ModelRef, e: Engine) -> str:
     while i < n:
         c = s[i]
         o = ord(c)
-        if 0xF0000 <= o < 0x100000:
+        if e.is_token_char(c) and c not in e.chars:
             j = i
             while j < n and s[j] == c:
                 j += 1
-            tok = s[i:j]
+            tok = s[i:j] if not e.render_opaque else c
+            if e.render_opaque:
+                j = i + 1
             if tok not in e.tokens:
                 raise RuntimeError(f"token run of length {j - i} not registered")
             v = m.eval(e.tokens[tok], True).as_long()
             r = _str(v)
-            if len(r) != j - i:
+            if not e.render_opaque and len(r) != j - i:
                 raise RuntimeError("token length disagrees with model value")
             out.append(r)
             i = j
